@@ -144,7 +144,7 @@ PROPS = {
                                        "C01_oneshot_queue", "C01_oneshot_no_panic", "C01_state_queue", "C01_state_no_panic",
                                        "C01_timer_heap", "C01_timer_no_panic"],
                   "Properties/C20.v": ["C20_list_refines_deque", "C20_heap_refines_tree"]},
-        prims=["event", "mutex", "semaphore", "mpmc", "oneshot", "state", "timer"], keys=["q", "r"], assumptions=[SCHED_NOTE],
+        prims=["event", "mutex", "semaphore", "mpmc", "oneshot", "state", "timer"], keys=["q", "r"], direct_keys=["q"], assumptions=[SCHED_NOTE],
         level_text="For each of the seven primitive models, theorem over every reachable state (any history, any number of futures, fair/unfair, every capacity, borrowed/shared handles): the wait queue (timer: the heap) holds exactly the alive, non-terminated futures in the linked state, each once; no contract-respecting call returns a panic or leaves the intrusive-container protocol (add of a linked node / removal of a non-member). Combined with C20 (pointer-level list and heap are memory-safe and exact under exactly that protocol) this is the 'no access to a dropped future' claim. Correspondence: after EVERY operation of every explored history the hook snapshot of the real queue (node addresses mapped to live futures; an address of a dropped future prints as DANGLING) must equal the model's queue, and no call may panic or crash.",
         level_note="Rust aliasing-model UB is not expressible. The harness keeps dropped futures' memory mapped so that a dangling entry is observed rather than crashing. " + SCHED_NOTE,
     ),
@@ -155,7 +155,7 @@ PROPS = {
                                        "C17_state", "C17_state_repoll", "C17_timer", "C17_timer_repoll"],
                   "Properties/C17s.v": ["C17s_terminated_stays", "C17s_item_is_receive"]},
         prims=["event", "mutex", "semaphore", "mpmc", "oneshot", "state", "timer"], runs=["mpmc-stream-c1", "mpmc-stream-c0", "mpmc-sstream-c1", "mpmc-sstream-c0"],
-        keys=["t", "r"],
+        keys=["t", "r"], direct_keys=["t"],
         level_text="Theorems for all seven models: a future is created non-terminated; a legal step changes the is_terminated flag of a surviving future only by setting it, exactly when that future's poll returns a Ready-type result (or cancel() on a send future); polls are legal only while unset, hence Ready at most once; a poll after completion panics and changes nothing. Streams (ChannelStream / SharedStream) are modelled as composition of receive-future steps: an item is exactly the result of the receive poll, a terminated stream returns None forever without touching the channel. Correspondence: is_terminated() of every live future and stream after every operation of every explored history, malformed re-polls expect a panic.",
         level_note="Kernel-checked on the models; the stream composition itself (poll_next = create-if-absent, poll, drop-if-ready) is tied to the code by exhaustive correspondence runs with one stream next to explicit futures.",
     ),
@@ -163,7 +163,7 @@ PROPS = {
         level="other", coq_files=["Properties/C18.v"],
         theorems={"Properties/C18.v": ["C18_alloc_zero", "C18_store_domain_preserved"]},
         prims=["event", "mutex", "semaphore", "mpmc", "oneshot", "state", "timer"], keys=["a"],
-        exclude_flavours=["growing", "shared-growing"],
+        exclude_flavours=["growing", "shared-growing"], direct_keys=["a"],
         explanation="Thin theorem (every model step reports zero allocations; the pointer-level containers never change the domain of the cell store) + the deciding observable: a counting #[global_allocator] in the harness, armed only inside library calls (id-wakers, tagged payloads and the harness bookkeeping allocate nothing while armed), whose per-step allocation+free count is compared with the model's zero on every step of every history explored for the other properties, for local, parking_lot and shared flavours. GrowingHeapBuf runs are excluded from the 'a' comparison (documented exception); creation/teardown of primitives and panicking calls are outside the claim.",
         level_text="Allocation observable in the model/implementation correspondence, backed by a thin Coq theorem; see explanation.",
         level_note="A proof cannot see an allocation the model does not mention; detection rests on the allocator observable.",
@@ -279,14 +279,14 @@ PROPS = {
     "C20": dict(
         level="proof", coq_files=["Properties/C20.v"],
         theorems={"Properties/C20.v": ["C20_list_empty", "C20_list_refines_deque", "C20_list_reachable", "C20_heap_empty", "C20_heap_refines_tree", "C20_heap_reachable"]},
-        runs=L0_RUNS, keys=["r", "q"],
+        runs=L0_RUNS, keys=["r", "q"], direct_keys=["q", "r"],
         level_text="Pointer-level models of the intrusive list and pairing heap (one Gallina assignment per Rust statement, debug_asserts as outcomes) proved to refine a deque / the tree-level pairing heap: every operation under its documented precondition returns the specified value, keeps all links mutually consistent (representation predicate), leaves removed nodes and non-members with cleared links and trips no assertion; remove(non-member) returns false unchanged. Correspondence compares EVERY link of EVERY node (hook re-export of the private modules) after every operation on all sequences over 5 list nodes / 6 heap nodes with keys from a 3-value set.",
         level_note="Rust aliasing-model UB (stacked borrows) is not expressible in the model.",
     ),
     "C16": dict(
         level="proof", coq_files=["Properties/C16.v"],
         pre_coq="python3 tools/rs2coq_types.py /repo/src coq/Gen/TypesGen.v && make -C coq Gen/TypesGen.vo >/dev/null 2>&1; true",
-        theorems={"Properties/C16.v": ["C16_futures_not_unpin", "C16_sound", "C16_table_covers_impls", "C16_complete"]},
+        theorems={"Properties/C16.v": ["C16_futures_not_unpin", "C16_sound", "C16_table_covers_impls", "C16_complete", "C16_producers_guarded"]},
         runs=[], keys=[], extra=["c16"],
         trusted_extra=["tools/rs2coq_types.py (translator: struct/enum fields, unsafe impl bounds -> coq/Gen/TypesGen.v, regenerated on every run)",
                        "coq/Model/AutoTraits.v leaf rules for core/alloc/lock_api types, validated on every run against rustc on ~1500 instantiations with witness types (tools/c16.py probe crate)",
